@@ -81,6 +81,12 @@ class HopSummary:
         for name, fn in funcs.items():
             for r in ast.walk(fn):
                 pairs = []
+                if isinstance(r, ast.Return) and isinstance(r.value, ast.Name):
+                    # `edge = {...}; ...; return edge`
+                    vals = [st.value for st in ast.walk(fn) if isinstance(st, ast.Assign) and len(st.targets) == 1
+                            and isinstance(st.targets[0], ast.Name) and st.targets[0].id == r.value.id]
+                    if len(vals) == 1:
+                        r = ast.Return(value=vals[0])
                 if isinstance(r, ast.Return) and isinstance(r.value, ast.Dict):
                     pairs = [(k.value, v) for k, v in zip(r.value.keys, r.value.values) if isinstance(k, ast.Constant)]
                 elif isinstance(r, ast.Return) and isinstance(r.value, ast.Call) and call_name(r.value) == "dict" and not r.value.args:
@@ -167,6 +173,18 @@ class HopSummary:
         if isinstance(e, ast.Name):
             vals = [v for _t, v in astq.assignments(self.fn, e.id) if v is not None]
             if not vals:
+                # a loop variable of a loop over a literal table of rows: `for make, members in ((f, sorted(node.a)), (g, ...))`
+                for lp in ast.walk(self.fn):
+                    if isinstance(lp, ast.For) and isinstance(lp.target, (ast.Tuple, ast.List)):
+                        for kk, t in enumerate(lp.target.elts):
+                            if isinstance(t, ast.Name) and t.id == e.id:
+                                rows = self._table_rows(lp.iter)
+                                if rows:
+                                    parts = [self.iter_info(r_.elts[kk], None, depth + 1) for r_ in rows
+                                             if isinstance(r_, (ast.Tuple, ast.List)) and kk < len(r_.elts)]
+                                    if parts:
+                                        return IterInfo(set().union(*[p.rels for p in parts]), all(p.sorted for p in parts),
+                                                        any(p.unknown for p in parts))
                 return IterInfo(unknown=True)
             parts = [rec(v) for v in vals]
             return IterInfo(set().union(*[p.rels for p in parts]), all(p.sorted for p in parts), any(p.unknown for p in parts))
@@ -191,6 +209,15 @@ class HopSummary:
             a, b = rec(e.left), rec(e.right)
             return IterInfo(a.rels | b.rels, a.sorted and b.sorted, a.unknown or b.unknown)
         return IterInfo(unknown=True)
+
+    def _table_rows(self, it: ast.AST):
+        """rows of a literal table (a display of displays), directly or through a local bound once to it"""
+        if isinstance(it, ast.Name):
+            vals = [v for _t, v in astq.assignments(self.fn, it.id) if v is not None]
+            it = vals[0] if len(vals) == 1 else it
+        if isinstance(it, (ast.Tuple, ast.List)) and it.elts and all(isinstance(r_, (ast.Tuple, ast.List)) for r_ in it.elts):
+            return list(it.elts)
+        return None
 
     def endpoint(self, e: ast.AST, at: ast.AST):
         """('node'|rel|'?', sorted, binder) for an edge endpoint / queued node expression"""
@@ -275,9 +302,11 @@ class HopSummary:
                         out.add(x.id)
             b = self.binding(f.id, c)
             if b is not None:
-                for x in ast.walk(b[1]):
-                    if isinstance(x, ast.Name) and x.id in self.factories:
-                        out.add(x.id)
+                srcs = [b[1]] + ([r_ for r_ in (self._table_rows(b[1]) or [])])
+                for src in srcs:
+                    for x in ast.walk(src):
+                        if isinstance(x, ast.Name) and x.id in self.factories:
+                            out.add(x.id)
             return out
         return set()
 
